@@ -49,8 +49,9 @@ Record ctx_table := {
   ct_variant : name;                           (* MinidumpRawContext variant *)
   ct_width : Z;                                  (* type Register = u32 / u64 *)
   ct_registers : list name;                    (* const REGISTERS *)
-  ct_get : list (list name * loc);             (* get_register_always arms, in order; `_ => unreachable!` *)
-  ct_set : list (list name * loc);             (* set_register arms, in order; `_ => return None` *)
+  ct_get : list (list name * aexp);            (* get_register_always arms, in order (the arm's whole expression); `_ => unreachable!` *)
+  ct_set : list (list name * loc);             (* set_register arms, in order: the place assigned; `_ => return None` *)
+  ct_set_val : list (list name * aexp);        (* set_register arms: the value assigned, an expression over [AVar v_val] = `val` *)
   ct_memo : list (list name * name);         (* memoize_register arms; `_ => default_memoize_register(REGISTERS, reg)` *)
   ct_memo_cmp : Z;                               (* the comparison inside default_memoize_register's `position` closure:
                                                     0 = `*val == reg` (exact), 1 = eq_ignore_ascii_case *)
@@ -68,5 +69,6 @@ Record ctx_table := {
   ct_gpr : list name                           (* MinidumpContext::general_purpose_registers arm (REGISTERS of the named type) *)
 }.
 
+Definition v_val : name := [118; 97; 108]. (* "val" *)
 Definition v_ga : name := [36; 103; 97].   (* "$ga" *)
 Definition v_iv : name := [36; 105; 118].  (* "$iv" *)
